@@ -11,7 +11,7 @@ from fractions import Fraction
 
 import numpy as np
 
-from .. import coqrun, hf_util
+from .. import coqrun
 from ..core import Corr
 from ..coqrun import cz, cnat, cstr, clist, copt, cbool
 
@@ -608,7 +608,7 @@ def correspond(ctx):
         corr.count("formula")
 
     def run(tag, req, fn, terms, meta, ty, shard, stream, show):
-        bad, errors = hf_util.eval_retry(tag, req, "", fn, terms, shard=shard, ty=ty)
+        bad, errors = coqrun.eval_bad_indices(tag, req, "", fn, terms, shard=shard, ty=ty)
         corr.errors.extend(f"{tag} shard {k}: {e}" for k, e in errors)
         for b in bad[:5]:
             got = None
